@@ -135,6 +135,19 @@ struct SymCase
 static std::vector<ld> gen_spectrum(Rng& rng, unsigned n)
 {
 	std::vector<ld> lam(n);
+	// traceless spectra, separated in magnitude, that cancel exactly in binary: (1, -1/2, ..., -2^-(n-3), -r q, -r (1-q)) with r the remainder
+	// (seeded change C15-r6m2 normalised the convergence test by |trace|)
+	if(n >= 3 && rng.coin(0.12))
+	{
+		ld sg = rng.coin() ? 1 : -1, r = 1;
+		lam[0] = sg;
+		for(unsigned i = 1; i + 2 < n; i++)
+			lam[i] = -sg * (r = ldexpl(1.0L, -(int) i));
+		ld q	   = (ld) rng.irange(36, 51) / 64;
+		lam[n - 2] = -sg * r * q;
+		lam[n - 1] = -sg * r * (1 - q);
+		return lam;
+	}
 	ld mag = rng.coin(0.3) ? (ld) rng.loguni(1e-3, 1e3) : 1.0L;
 	for(unsigned i = 0; i < n; i++)
 	{
@@ -237,6 +250,33 @@ static SymCase gen_sym(Rng& rng, unsigned n, int kind)
 			break;
 		}
 	}
+	// rows and columns of the structured matrices permuted together: the blocks interleave, e.g. index sets {0,2},{1}, and entries next to the
+	// diagonal can all vanish although the matrix is not diagonal (seeded change C15-r6m3 looked at the sub-diagonal only)
+	if(C.structured && n >= 3 && rng.coin(0.4))
+	{
+		std::vector<unsigned> perm(n);
+		for(unsigned i = 0; i < n; i++)
+			perm[i] = i;
+		if(rng.coin(0.5))
+		{
+			// even positions first: pairs (0,1),(2,3) become (0,k),(1,k+1)
+			std::vector<unsigned> q;
+			for(unsigned i = 0; i < n; i += 2)
+				q.push_back(i);
+			for(unsigned i = 1; i < n; i += 2)
+				q.push_back(i);
+			perm = q;
+		}
+		else
+			for(unsigned i = n - 1; i > 0; i--)
+				std::swap(perm[i], perm[rng.below(i + 1)]);
+		RM P(n, n);
+		for(unsigned i = 0; i < n; i++)
+			for(unsigned j = 0; j < n; j++)
+				P(i, j) = C.S(perm[i], perm[j]);
+		C.S	   = P;
+		C.kind = C.kind == std::string("diagonal") ? "diagonal" : C.kind == std::string("block-diagonal-2x2") ? "block-diagonal-2x2-permuted" : C.kind == std::string("direct-sum-of-rotated-blocks") ? "direct-sum-of-rotated-blocks-permuted" : "block-diagonal-seesaw-permuted";
+	}
 	// the whole matrix rescaled by an exact power of two (1e-12 .. 1e12): spectrum, residuals and convergence tests are all relative to ||M||, so the same
 	// decisions must be taken at every scale (seeded change C15-r3m3 made the convergence test of the QR iteration absolute)
 	if(rng.coin(0.35))
@@ -250,11 +290,33 @@ static SymCase gen_sym(Rng& rng, unsigned n, int kind)
 	return C;
 }
 
+static void check_eigen(SymCase& C, unsigned n, uint64_t index);
 static void case_eigen(Rng& rng, uint64_t index)
 {
 	unsigned n = 1 + (unsigned) (index % 7);
 	int kind   = (int) ((index / 7) % 6);
 	SymCase C  = gen_sym(rng, n, kind);
+	check_eigen(C, n, index);
+}
+// witnesses of repaired defects.  D35: spectrum {1,-1/2,-51/128,-13/128}, (1,1,1,1) the eigenvector of -1/2 and row sums that are exact in
+// binary: inverse iteration from (1,...,1) reproduced that vector for the shift 1 and Eigensystem returned the pair of -1/2 twice
+static void case_eigen_witness(Rng&, uint64_t index)
+{
+	static const double D35[16] = {0x1.0d73ba91e5ec8p-3, -0x1.372a7de6d90f4p-1, -0x1.8be11f0896c43p-3, 0x1.5b175c1215149p-3, -0x1.372a7de6d90f4p-1, 0x1.befc812aed008p-2, -0x1.4e97a6022c55ep-5, -0x1.26d4909cf5575p-2,
+								   -0x1.8be11f0896c43p-3, -0x1.4e97a6022c55ep-5, -0x1.cf3bbcc339d7p-3, -0x1.44f4eace913d8p-5, 0x1.5b175c1215149p-3, -0x1.26d4909cf5575p-2, -0x1.44f4eace913d8p-5, -0x1.5e188012430b4p-2};
+	SymCase C;
+	C.kind = "witness-D35-all-ones-eigenvector-of-another-eigenvalue";
+	C.S	   = RM(4, 4);
+	// index 1, 2: the same matrix at another binary scale
+	double sc = index == 0 ? 1.0 : index == 1 ? 0x1p-30 : 0x1p+17;
+	for(unsigned i = 0; i < 16; i++)
+		C.S.a[i] = D35[i] * sc;
+	C.lam		 = {1.0L * sc, -0.5L * sc, -0.3984375L * sc, -0.1015625L * sc};
+	C.structured = true;
+	check_eigen(C, 4, 1);
+}
+static void check_eigen(SymCase& C, unsigned n, uint64_t index)
+{
 	set_params(mat_json(C.S, C.kind));
 	hash_matrix(C.S);
 	bool negative = false;
@@ -382,6 +444,7 @@ static void case_eigen(Rng& rng, uint64_t index)
 static void setup()
 {
 	add_generator("qr", ctx().count(8400, 840000), case_qr);
+	add_generator("witness_matrices", 3, case_eigen_witness);
 	add_generator("symmetric_eigen", ctx().count(7000, 700000), case_eigen);
 }
 VERIF_MAIN("C15", setup)
